@@ -21,7 +21,12 @@ ID = 'C17'
 MODULE = 'EmsModel.Props.C17'
 DRIVER = 'C17'
 REQUIRED = [
-    'Ems.C17.offset_roundtrip', 'Ems.C17.same_instant', 'Ems.C17.output_form', 'Ems.C17.fill_decision',
+    'Ems.C17.offset_roundtrip', 'Ems.C17.offset_form', 'Ems.C17.same_instant', 'Ems.C17.same_zone',
+    'Ems.C17.output_form', 'Ems.C17.format_valid', 'Ems.C17.check_redundant', 'Ems.C17.time_instants_preserved',
+    'Ems.C17.parseUnits_spelled', 'Ems.C17.format_spelled', 'Ems.C17.ems_rewrite_gregorian',
+    'Ems.C17.fill_decision', 'Ems.C17.no_new_fill', 'Ems.C17.autofill_covered',
+    'Ems.C17.time_coordinate_first', 'Ems.C17.time_coordinate_none',
+    'Ems.C17.same_instant_gregorian', 'Ems.C17.validInput_gregorian',
 ]
 RULE = ('units strings built from (period, date, time of day, offset, calendar, spelling) tuples: every cftime '
         'unit name x epochs incl. years < 1000, leap days, month/year ends where local and UTC date differ, the '
@@ -265,9 +270,6 @@ def oracle_units(ctx, calendar: str, units: str, out: str, case: dict | None, de
     return None
 
 
-F5_SIGS = {'time-units-offset-format', 'time-units-year-format'}
-
-
 def nontrivial_case(case: dict | None, units: str) -> bool:
     if case is None:
         return True
@@ -369,7 +371,6 @@ def units_stream(ctx) -> None:
 
     # ---- run the real code --------------------------------------------------
     lines, impls, descs = [], [], []
-    flagged: dict = {}
     side_items = []
     for cal, units, case in work:
         if not ascii_ok(cal) or cal == '':
@@ -380,9 +381,7 @@ def units_stream(ctx) -> None:
         desc = {'op': line, 'calendar': cal, 'units': units}
         if case is not None:
             desc['case'] = case
-        sig = oracle_units(ctx, cal, units, out, case, desc)
-        if sig:
-            flagged[line] = sig
+        oracle_units(ctx, cal, units, out, case, desc)
         lines.append(line)
         impls.append(out)
         descs.append(desc)
@@ -407,8 +406,8 @@ def units_stream(ctx) -> None:
         if len(parts) == 3:
             pline = f'parse {esc(parts[2].strip())}'
             side_items.append((pline, impl_parse(parts[2].strip()), {'op': pline}))
+        k = rng.randint(-50, 5000)     # drawn for every case so that the input stream does not depend on the outputs
         if out != 'ERR' and case is not None and TU.is_valid(case) and case['period'].lower() in TU.UNIT_MICROS:
-            k = rng.randint(-50, 5000)
             try:   # keep the decoded instant inside year 1..9999 (cftime refuses to hand out others)
                 far = TU.utc_instant(case) + dt.timedelta(microseconds=k * TU.UNIT_MICROS[case['period'].lower()])
                 if not (2 <= far.year <= 9998):
@@ -425,11 +424,9 @@ def units_stream(ctx) -> None:
     if ctx.driver is None:
         ctx.evaluated(len(lines))
         return
-    # ---- primary model, then the quirk model on the mismatches ---------------
+    # ---- the model: with the code's own consistency check (`fmt`) and without it (`fmtpure`) ----------
     outs = ctx.model(lines)
     pure = ctx.model(['fmtpure' + l[3:] for l in lines])
-    mism = [k for k in range(len(lines)) if outs[k] != impls[k]]
-    cur = dict(zip(mism, ctx.model(['fmtcur' + lines[k][3:] for k in mism]))) if mism else {}
     for k, line in enumerate(lines):
         ctx.evaluations += 1
         ctx.traces += 1
@@ -438,11 +435,6 @@ def units_stream(ctx) -> None:
         if outs[k] == impls[k]:
             if len(ctx.samples) < 6 and ctx.rng.random() < 0.01:
                 ctx.samples.append({'op': line[:300], 'impl': impls[k][:300], 'model': outs[k][:300]})
-            continue
-        # accepted only as the recorded finding: the oracle flagged this very input and the
-        # unrepaired-formatter model reproduces the real output exactly
-        if flagged.get(line) in F5_SIGS and cur.get(k) == impls[k]:
-            ctx.count('impl=quirk-model(F5)')
             continue
         ctx.disagree(line, impls[k], outs[k], descs[k])
     ctx.check_batch(side_items)
@@ -478,8 +470,6 @@ def offset_stream(ctx) -> None:
         a = abs(off)
         ref = f"{'-' if off < 0 else '+'}{a // 60:02d}:{a % 60:02d}"
         items.append((f'foff {off}', ref, {'op': f'foff {off}'}))
-        h, m = divmod(off, 60)
-        items.append((f'foffcur {off}', f'{h:+d}:{m:02d}', {'op': f'foffcur {off}'}))
         ctx.evaluated()
         if impl_poff(ref) != str(off):
             ctx.oracle_fail('cftime-offset-grammar', {'op': f'poff {ref}'}, f'cftime reads {ref!r} as {impl_poff(ref)}, not {off}')
@@ -509,6 +499,16 @@ def fill_stream(ctx) -> None:
                         slot = impl_slot(d, enc, attr)
                     except Exception as e:   # noqa
                         slot = f'ERR {type(e).__name__}'
+                    # direct statement of the decision: `_FillValue = None` is set iff the dtype can hold its
+                    # own missing value (float, complex, datetime, timedelta, object) and there is no fill
+                    # value in the encoding or the attributes; everything else is left as it was
+                    floatlike = np.dtype(d).kind in 'fcMmO'
+                    want = 'none' if (enc == 'none' or (floatlike and enc == 'absent' and not attr)) else enc
+                    ctx.evaluated()
+                    if slot != want:
+                        ctx.oracle_fail('fill-decision', {'op': f'fill {kind} {kind} {enc} {int(attr)}', 'dtype': d},
+                                        f'disable_default_fill_value on a {d} variable (encoding slot {enc}, attribute {attr}) '
+                                        f'leaves encoding[_FillValue] {slot}, expected {want}')
                     line = f'fill {kind} {kind} {enc} {int(attr)}'
                     # only the encoding slot is compared here; the file bit comes from the model and is
                     # compared in file_fill_stream
@@ -737,25 +737,14 @@ def timecoord_stream(ctx) -> None:
         ctx.evaluated(len(pending))
         return
     prim = ctx.model([f'timecoord {t}' for t, *_ in pending])
-    cur = ctx.model([f'timecoordcur {t}' for t, *_ in pending])
     sav = ctx.model([f'savetime {t}' for t, *_ in pending])
-    savcur = ctx.model([f'savetimecur {t}' for t, *_ in pending])
-    for (tail, got, saved, desc), p, q, sv, svq in zip(pending, prim, cur, sav, savcur):
+    for (tail, got, saved, desc), p, sv in zip(pending, prim, sav):
         ctx.evaluations += 1
         ctx.traces += 1
         if got != p:
-            if got == q:
-                # the present SHOC override returns a bare dimension as the time coordinate
-                ctx.count('impl=quirk-model(time dimension without variable)')
-                if saved != 'ERR':
-                    ctx.oracle_fail('time-coordinate-not-a-variable', desc, f'time_coordinate is {got!r}, which is not a variable of the dataset')
-            else:
-                ctx.disagree(f'timecoord {tail}', got, p, desc)
+            ctx.disagree(f'timecoord {tail}', got, p, desc)
         if saved is not None and saved != sv:
-            if saved == svq == 'ERR' and got == q != p:
-                pass    # reported above by the oracle as save-raises-time-dimension-only
-            else:
-                ctx.disagree(f'savetime {tail}', saved, sv, desc)
+            ctx.disagree(f'savetime {tail}', saved, sv, desc)
 
 
 # --------------------------------------------------------------------------
@@ -824,8 +813,11 @@ def run_roundtrip(ctx, rt: dict, tmp: str) -> list:
     nt = int(ds.sizes.get('time', recipe.get('sizes_extra', {}).get('time', 2)))
     utc0 = TU.utc_instant(case)
     step = dt.timedelta(seconds=TU.UNIT_SECONDS[case['period']] * rt['step'])
-    instants = [utc0 + k * step for k in range(nt)]
-    if any(i.year < 1 or i.year > 9998 for i in instants):
+    try:
+        instants = [utc0 + k * step for k in range(nt)]
+    except OverflowError:
+        return []
+    if any(i.year < 2 or i.year > 9998 for i in instants):
         return []
     data = np.array([np.datetime64(i.isoformat(), 's') for i in instants])
     da = xr.DataArray(data, dims=['time'], attrs={'long_name': 'Time'})
@@ -903,23 +895,18 @@ def run_roundtrip(ctx, rt: dict, tmp: str) -> list:
                                                and TU.f5_class(case['off'])) else 'save-raises'
         ctx.oracle_fail(sig, desc, f'{type(c).__name__}.to_netcdf raised {type(err).__name__}: {str(err)[:200]} '
                                    f'(time units {units_in!r}, written by xarray as {raw_units!r})')
-        # the model must say ERR for the quirk; the primary model says what should have been written
-        return [('fmtcur' + line[3:], 'ERR', {'op': 'fmtcur' + line[3:], **desc})] if sig == 'time-units-offset-format' else []
+        return []
     with netCDF4.Dataset(out_path) as nc:
         out_units = nc.variables[tname].getncattr('units')
         out_cal = nc.variables[tname].getncattr('calendar')
         out_vals = np.array(nc.variables[tname][:]).tolist()
         out_fill = {k: ('_FillValue' in v.ncattrs()) for k, v in nc.variables.items()}
     # -- the rewritten units: model and oracle
-    flagged = None
     if expect_found:
         rcase = dict(case, sp={'sep': 'T', 'tzsep': '', 'tz': 'colon', 'seconds': True, 'pad': True})
-        flagged = oracle_units(ctx, raw_cal, raw_units, esc(out_units), case if TU.utc_instant(case) == TU.utc_instant(rcase) else None,
+        oracle_units(ctx, raw_cal, raw_units, esc(out_units), case if TU.utc_instant(case) == TU.utc_instant(rcase) else None,
                                {'op': line, **desc})
-        if flagged in F5_SIGS:
-            items.append(('fmtcur' + line[3:], esc(out_units), {'op': 'fmtcur' + line[3:], **desc}))
-        else:
-            items.append((line, esc(out_units), {'op': line, **desc}))
+        items.append((line, esc(out_units), {'op': line, **desc}))
     else:
         # no time coordinate by this convention's rule: units stay as xarray wrote them
         ctx.evaluated()
@@ -1006,6 +993,10 @@ def roundtrip_stream(ctx) -> None:
 # --------------------------------------------------------------------------
 
 def run(ctx) -> None:
+    if ctx.driver is not None:
+        # the driver imports Core/Proto.lean, which no theorem module does: make sure it is compiled
+        from harness import lean
+        lean.build(['EmsModel.Core.Proto'])
     units_stream(ctx)
     offset_stream(ctx)
     fill_stream(ctx)
@@ -1019,7 +1010,7 @@ def replay(ctx, data) -> int:
 
 def impl_of_line(line: str) -> str | None:
     op, _, rest = line.partition(' ')
-    if op in ('fmt', 'fmtpure', 'fmtcur', 'instant'):
+    if op in ('fmt', 'fmtpure', 'instant'):
         cal, _, u = rest.partition(' ')
         cal, u = unesc(cal), unesc(u)
         return impl_fmt(cal, u) if op != 'instant' else impl_instant(cal, u)
@@ -1072,8 +1063,6 @@ def run_one(ctx, inp: dict) -> dict:
         if ctx.driver:
             a, b = ctx.model([f"timecoord {res['tail']}", f"savetime {res['tail']}"])
             out['model'] = f'time_coordinate={a} save={b}'
-            a, b = ctx.model([f"timecoordcur {res['tail']}", f"savetimecur {res['tail']}"])
-            out['model(present SHOC overrides)'] = f'time_coordinate={a} save={b}'
         return out
     op = inp.get('op')
     if op:
@@ -1082,8 +1071,6 @@ def run_one(ctx, inp: dict) -> dict:
             out['impl'] = impl
         if ctx.driver:
             out['model'] = ctx.model([op])[0]
-            if op.startswith('fmt '):
-                out['model(unrepaired formatter)'] = ctx.model(['fmtcur' + op[3:]])[0]
         if op.startswith('fmt') and 'units' in inp:
             case = inp.get('case')
             if case:
